@@ -72,3 +72,13 @@ Definition unpack_fields (boolean : bool) (N : Z) (ws : list Z) (sz : Z) : list 
 
 (* a buffer zero-extended to at least n bytes (what packifyInto does before writing) *)
 Definition extend_to (b : list Z) (n : Z) : list Z := b ++ repeat 0 (Z.to_nat (n - py_len b)).
+
+(* unhexify / unhexize on ARBITRARY text: keep the hex digits, left-pad with '0' to even length,
+   then two digits (either case) per byte *)
+Definition is_hexdigit (c : Z) : bool := py_memZ c py_hexdigits.
+Definition hexval0 (c : Z) : Z := match hexval c with Some d => d | None => 0 end.
+Fixpoint decode_pairs (h : list Z) : list Z :=
+  match h with c1 :: c2 :: r => (hexval0 c1 * 16 + hexval0 c2) :: decode_pairs r | _ => [] end.
+Definition clean_hex (h : list Z) : list Z :=
+  let f := filter is_hexdigit h in if Nat.even (length f) then f else 48 :: f.
+Definition unpair (ps : list (Z * Z)) : list Z := flat_map (fun p => [fst p; snd p]) ps.
